@@ -397,6 +397,28 @@ pub fn exec_op(st: &mut Store, dir: &str, t: &[&str]) -> (String, bool) {
                     "panic".to_string()
                 }
             },
+            "W" => {
+                // RaftLog::dump(): every record of every chunk file as the crate's own iterator reads it
+                use raft_log::DumpApi;
+                let mut items: Vec<String> = Vec::new();
+                let r = catch_unwind(AssertUnwindSafe(|| {
+                    st.rl.dump().write_with(|chunk_id, i, res| {
+                        items.push(match res {
+                            Ok((seg, rec)) => format!("{}:{}:{}+{}:{}", chunk_id.0, i, seg.offset().0, seg.size().0, record_str(&rec).replace(' ', "_")),
+                            Err(e) => format!("{}:{}:err:{}", chunk_id.0, i, kind_str(e.kind())),
+                        });
+                        Ok(())
+                    })
+                }));
+                match r {
+                    Ok(Ok(())) => format!("dump {}", items.join(" ")),
+                    Ok(Err(e)) => format!("dump {} err:{}", items.join(" "), kind_str(e.kind())),
+                    Err(_) => {
+                        stop = true;
+                        "panic".to_string()
+                    }
+                }
+            }
             "H" => {
                 let v = st.rl.verif_cache_resident();
                 format!("resident {}", v.iter().map(|(id, n)| format!("{}:{}:{}", id.0, id.1, n)).collect::<Vec<_>>().join(","))
